@@ -237,17 +237,34 @@ class ContractMixin:
         entry = entry.strip()
         if entry.startswith("all:"):
             # wildcard: 'all:dict' (contents of every dict) or 'all:field:<name>' (that field of every object)
-            return entry[4:], None
+            reg_ = entry[4:]
+            if reg_.startswith("field:"):
+                for ci in self.reg.classes.values():
+                    if reg_[6:] in ci.fields:
+                        fk = parse_kind(ci.fields[reg_[6:]], self.reg.opaque)
+                        if fk not in (FN, NONE):
+                            self.H.fld_arr(st, reg_[6:], fk.sort())
+            return reg_, None
         if entry.endswith("[]"):
             v = self.spec_eval(entry[:-2], env, st)
             if is_list(v.kind):
+                self.touch_container(st, v)
                 return "list", v.term
             if is_dict(v.kind):
+                self.touch_container(st, v)
                 self._mod_values[v.term.get_id()] = v
                 return "dict", v.term
             raise Unsupported(f"modifies entry {entry}: not a container")
         if entry.endswith(".*"):
             base = self.spec_eval(entry[:-2], env, st)
+            if is_obj(base.kind):
+                cls = base.kind.target.cls
+                for c2 in self.reg.classes:
+                    if self.reg.is_subclass(c2, cls) or self.reg.is_subclass(cls, c2):
+                        for f, ks in self.reg.classes[c2].fields.items():
+                            fk = parse_kind(ks, self.reg.opaque)
+                            if fk not in (FN, NONE):
+                                self.H.fld_arr(st, f, fk.sort())
             return "field:*", base.term
         node = parse_spec(entry)
         if isinstance(node, ast.Attribute):
@@ -258,16 +275,30 @@ class ContractMixin:
                 pass
             if is_obj(base.kind) or isinstance(base.kind, Ref):
                 fk = self.field_kind(base.kind.target.cls, node.attr) if is_obj(base.kind) else None
-                v = None
-                if fk is not None and isinstance(fk, Ref) and entry.endswith("[]"):
-                    pass
+                if fk is not None and fk not in (FN, NONE):
+                    self.H.fld_arr(st, node.attr, fk.sort())  # make sure the array exists so that havoc reaches it
                 return "field:" + node.attr, base.term
         v = self.spec_eval(entry, env, st)
         if is_list(v.kind):
+            self.touch_container(st, v)
             return "list", v.term
         if is_dict(v.kind):
+            self.touch_container(st, v)
             return "dict", v.term
         raise Unsupported(f"modifies entry {entry}")
+
+    def touch_container(self, st, v):
+        """Create the heap arrays a container kind lives in, so that a havoc of the region reaches them."""
+        t = v.kind.target
+        if isinstance(t, ListT):
+            self.H.len_arr(st)
+            if t.elem is not None:
+                self.H.el_arr(st, t.elem.sort())
+        elif isinstance(t, DictT) and t.k is not None:
+            self.H.dom_arr(st, t.k.sort())
+            self.H.map_arr(st, t.k.sort(), t.v.sort())
+            self.H.dklen_arr(st, t.k.sort())
+            self.H.dkel_arr(st, t.k.sort())
 
     # ------------------------------------------------------------------ exceptions
     def raise_exc(self, exc: str, st: State, node, origin=None):
